@@ -227,7 +227,7 @@ def numeric_error_identity(ctx, quick):
 
 
 def run(ctx):
-    st = vlib.prepare(ctx, PROP_V)
+    st = vlib.prepare(ctx, PROP_V, need_translators=('tr_deleg',))
     quick = ctx.tier == 'quick'
     import yastn
     ctx.cov['rule'] = ('spectra over 1-5 charge sectors (sector sizes 1-6; styles: many ties / all equal / distinct / with zeros), integer '
